@@ -607,6 +607,7 @@ class World:
 
 	def build(self):
 		sim, net, cfg = self.sim, self.net, self.cfg
+		toolkit.reset()  # fresh module objects: nothing leaks from the previous run of this process
 		fake_trx = toolkit.tk("fake_trx")
 		clck_gen = toolkit.tk("clck_gen")
 		transceiver = toolkit.tk("transceiver")
